@@ -58,7 +58,7 @@ def model_check(ctx, cov):
     if ctx.quick:
         cfgs = [("mc/InitOrder_quick.cfg", 8, 900, 32)]
     else:
-        cfgs = [("mc/InitOrder_thorough.cfg", 4, 2400, 48), ("mc/InitOrder_thorough_b.cfg", 4, 2400, 48)]
+        cfgs = [("mc/InitOrder_thorough.cfg", 4, 2400, 96), ("mc/InitOrder_thorough_b.cfg", 4, 2400, 96)]
     dev_mod = os.environ.get("VERIF_C30_MOD")      # development aid: thinner sample
     env_for = lambda mod: {"C30_MOD": dev_mod or str(mod), "C30_SEED": str(ctx.seed % 1000003)}  # noqa: E731
 
